@@ -136,6 +136,12 @@ def repro_case(args):
         a = sp.proc(t3.Proc("pair", kind="cattok", ins=[("a", [(s, "out")])], outs=[("o", "{i:a}.paired")], pre="cat %s > /dev/null" % comp))
         if rng.random() < 0.5:
             sp.proc(t3.Proc("after", kind="cat", ins=[("a", [(a, "o")])], outs=[("o", "{i:a}.after")], pre="test -s {i:a|%.paired}"))
+    if i % 3 == 1:
+        # commands that succeed although a non-last member of a pipeline, or an earlier command of a `;` list, exits non-zero
+        # (scipipe runs plain `bash -c`): the script must run them the same way
+        for p in sp.procs():
+            if p.ins and rng.random() < 0.7:
+                p.pre = rng.choice(["grep NO_SUCH_WORD {i:%s} | wc -l > /dev/null" % p.ins[0][0], "{ false ; true ; }", "ls /no/such/dir 2> /dev/null | cat > /dev/null"])
     model = t3.run_model(sp.text())
     if model["status"] != "done" or model["failed"]:
         return None
